@@ -37,6 +37,14 @@ def post(prog, r, tier, prof):
         if op.get("op") == "expunge" and r.random() < 0.4:
             out.append({"actor": "agent", "op": "deliver", "mbox": r.choice(prof["mailboxes"]), "count": 1, "unseen": True})
     prog["ops"] = out
+    if len(prof["mailboxes"]) >= 3 and r.random() < 0.15:
+        # two mailboxes trade names (through a third name): whatever their UIDVALIDITYs, each name now names another incarnation
+        a, b = prof["mailboxes"][1], prof["mailboxes"][2]
+        s0 = prog["sessions"][0]["id"]
+        at = r.randint(0, len(prog["ops"]))
+        swap = [{"s": s0, "op": "rename", "name": a, "to": "swaptmp"}, {"s": s0, "op": "rename", "name": b, "to": a}, {"s": s0, "op": "rename", "name": "swaptmp", "to": b},
+                {"s": s0, "op": "status", "mbox": a}, {"s": s0, "op": "status", "mbox": b}]
+        prog["ops"][at:at] = swap
     if r.random() < 0.5:
         _common.inject_stealth(prog, r, 0.25)
     return prog
